@@ -636,4 +636,17 @@ theorem push_spec (X : Ctx) (s : St) (es : List Elem) (e : Elem) (h : Abs X s.v 
     rw [ht]
     exact .pushed _ habs2 hd2
 
+/-- lowering the recorded length exposes a prefix (the slots behind it keep their bits) -/
+theorem Abs.shorten {X : Ctx} {v : VSt} {es : List Elem} (h : Abs X v es) (n : Nat) (hn : n ≤ es.length)
+    (hd : v.isDefault = false) : Abs X { v with len := n } (es.take n) := by
+  obtain ⟨b, hb, hl, hs, hlc, hel, hinit⟩ := h.alloc hd
+  refine ⟨h.elem_pos, fun hx => by simp [hd] at hx, fun _ => ⟨b, hb, hl, hs, by simp; omega, by simp; omega, ?_⟩⟩
+  intro i hi
+  simp only at hi
+  rw [hinit i (by omega), List.getElem?_take_of_lt hi]
+
+/-- the (only) events a run adds are the ones listed: used to state "no allocator traffic" and
+    "nothing destroyed" -/
+def newEvents (s s' : St) : List Ev := s'.sys.tr.drop s.sys.tr.length
+
 end MV
